@@ -14,7 +14,8 @@ RULE = ("metamorphic pairs: a Hypothesis-generated gen_params case (JSON residue
         "endpoints swapped, blocks and non-conflicting links permuted inside a file, definitions split over "
         "several -f files in another order (only when no .itp is among them), 0-2 unrelated gen_params runs "
         "executed in between - must give the same atoms table and interaction multiset; a repeated run must "
-        "give a byte-identical file apart from the header. non-trivial = the transformation is not the "
+        "give a byte-identical file apart from the header. One case in eight is a DNA strand given as two "
+        "different .json listings and completed with -dsdna. non-trivial = the transformation is not the "
         "identity, >=2 residues and >=1 link applied; distinct = spec hash")
 ASSUMPTIONS = ["cases whose outcome the reference model marks as application-order dependent are not asserted",
                "links are treated as conflicting (and not permuted) when they share a section and atom-name "
@@ -56,8 +57,76 @@ def _strategy(draw):
     return spec
 
 
+@st.composite
+def _dna(draw):
+    """one DNA strand described by two .json residue graphs that differ in node keys, record order and
+    edge orientation; gen_params -dsdna must give the same double strand for both"""
+    n = draw(st.integers(2, 10))
+    bases = [draw(st.sampled_from(["DA", "DC", "DG", "DT"])) for _ in range(n)]
+    listings = []
+    for _ in range(2):
+        ne = n - 1
+        listings.append({"idmap": draw(st.lists(st.integers(0, 40), min_size=n, max_size=n, unique=True)),
+                         "node_order": list(draw(st.permutations(range(n)))),
+                         "edge_order": list(draw(st.permutations(range(ne)))),
+                         "edge_flip": [draw(st.booleans()) for _ in range(ne)]})
+    if draw(st.booleans()):
+        listings[0] = {"idmap": list(range(n)), "node_order": list(range(n)), "edge_order": list(range(n - 1)),
+                       "edge_flip": [False] * (n - 1)}
+    return {"kind": "dna", "bases": bases, "listings": listings, "rng": draw(st.integers(0, 2**31 - 1))}
+
+
 def strategy(tier):
-    return _strategy()
+    return st.one_of(_strategy(), _strategy(), _strategy(), _strategy(), _strategy(), _strategy(), _strategy(), _dna())
+
+
+def check_dna(spec, ctx):
+    import json
+    from polyply.src.gen_itp import gen_params
+    from . import core
+    from .c19 import FF_TEMPLATE, FF_LINKS, BASES
+    from .itp import read_itp
+    names = list(spec["bases"])
+    names[0] += "5"
+    names[-1] += "3"
+    all_names = [b + s for b in BASES for s in ("", "5", "3")]
+    (ctx.dir / "dna.ff").write_text("".join(FF_TEMPLATE.format(name=nm) + "\n" for nm in all_names)
+                                    + FF_LINKS.format(all="|".join(all_names)))
+    n = len(names)
+    results = []
+    for num, lst in enumerate(spec["listings"]):
+        key = lst["idmap"]
+        edges = []
+        for e in lst["edge_order"]:
+            a, b = key[e], key[e + 1]
+            if lst["edge_flip"][e]:
+                a, b = b, a
+            edges.append({"source": a, "target": b})
+        data = {"directed": False, "multigraph": False, "graph": {},
+                "nodes": [{"id": key[i], "resname": names[i], "resid": i + 1} for i in lst["node_order"]],
+                "edges": edges}
+        seq = ctx.dir / f"seq{num}.json"
+        seq.write_text(json.dumps(data))
+        out = ctx.dir / f"out{num}.itp"
+        import random
+        import numpy as np
+        random.seed(spec["rng"])
+        np.random.seed(spec["rng"] % 2**32)
+        try:
+            gen_params(name="mol", outpath=out, inpath=[ctx.dir / "dna.ff"], seq_file=seq, dsdna=True)
+        except Exception as err:
+            raise core.crash(f"dna:crash_listing{num}", err)
+        if not out.exists():
+            raise Violation("dna:no_output", f"listing {num}")
+        results.append(tables(read_itp(out.read_text())[0]))
+    if results[0][0] != results[1][0]:
+        diff = [(i + 1, a, b) for i, (a, b) in enumerate(zip(results[0][0], results[1][0])) if a != b][:2]
+        raise Violation("dna:atoms_differ", f"two listings of one strand: {diff} (n={len(results[0][0])}/{len(results[1][0])})")
+    err = gpcheck.diff_multisets(results[0][1], results[1][1])
+    if err:
+        raise Violation("dna:interactions_differ", f"two listings of one strand: {err}")
+    ctx.label("dsdna_two_listings")
+    ctx.nontrivial = n >= 3 and spec["listings"][0] != spec["listings"][1]
 
 
 def links_conflict(spec):
@@ -159,6 +228,8 @@ def body_without_header(text):
 
 def check(spec, ctx):
     from . import core
+    if spec.get("kind") == "dna":
+        return check_dna(spec, ctx)
     model = mdl.expected(spec)
     if model.invalid:
         raise Reject(model.invalid)
